@@ -49,12 +49,13 @@ def rewritten_between_sessions(seed: int, events: list, hows=("bool_words", "str
     rx = Streams(seed)("rewrite-between-sessions")
     for e in events:
         if e["op"] in ("restart", "reopen") and "xform" not in e and rx.random() < rate:
-            e["xform"] = [{"kind": "rewrite_slides", "how": rx.choice(list(hows))}]
+            h = rx.choice(list(hows))
+            e["xform"] = [{"kind": "rewrite_charts", "how": h[7:]}] if h.startswith("charts:") else [{"kind": "rewrite_slides", "how": h}]
 
 
 def gen_history(seed: int, *, n_events, families=None, always=(), start=None, fault_rate=0.0,
                 src_fault_rate=0.0, ckpt=0.12, reopen=0.05, restart=0.03, observe=0.03, jump=0.02,
-                fork=0.01, every_event_ckpt=False, forms=("stream", "stream", "path", "dir", "path_keep"),
+                fork=0.01, every_event_ckpt=False, forms=("stream", "stream", "path", "dir", "dirlink", "path_keep"),
                 op_filter=None, held_rate=None, warmup=True):
     """Return (events, swarm description)."""
     S = Streams(seed)
@@ -153,7 +154,7 @@ def start_recipe(r: random.Random, pool="default", xform_rate=0.0):
         rec = {"deck": "default"}
     else:
         rec = {"deck": r.choice(decks)}
-    rec["form"] = r.choice(["stream", "stream", "path", "dir", "path_keep"])
+    rec["form"] = r.choice(["stream", "stream", "path", "dir", "dirlink", "path_keep"])
     if rec["form"] == "stream":
         rec["pos"] = r.choice([0, 0, 3, 10 ** 7])
     if r.random() < xform_rate:
@@ -172,6 +173,8 @@ def start_recipe(r: random.Random, pool="default", xform_rate=0.0):
         rec.setdefault("xform", []).append({"kind": "respell_targets", "style": r.choice(["mixed", "abs", "dot", "updown"]), "seed": r.randint(0, 99)})
     if r.random() < xform_rate * 0.3:
         rec.setdefault("xform", []).append({"kind": "explicit_internal", "rate": r.choice([0.5, 1.0]), "seed": r.randint(0, 99)})
+    if r.random() < xform_rate * 0.3:
+        rec.setdefault("xform", []).append({"kind": "respell_package_xml", "style": r.choice(["mixed", "prefixed", "multiline", "utf16"]), "seed": r.randint(0, 99)})
     if r.random() < xform_rate * 0.6:
         rec.setdefault("xform", []).append({"kind": "respell_rids", "style": r.choice(["mixed", "hex", "padded", "sparse", "words"]), "seed": r.randint(0, 99)})
     return rec
